@@ -60,6 +60,7 @@ type Event struct {
 }
 
 type Thread struct {
+	Cut    int  // >= 0: the first segment ends after exactly Cut events (schedule point fixed by a shape)
 	Atomic bool // runs entirely, without preemption, in round 0 (sequential adversary)
 	ID     int
 	Fn     FuncV
@@ -83,13 +84,18 @@ func (e *Engine) markShared(st *State, s SliceV, align Value, site string) {
 	e.Regions = append(e.Regions, r)
 }
 
+func (e *Engine) spawnCut(st *State, f FuncV, cut int, site string) {
+	th := &Thread{ID: len(e.Threads), Fn: f, Site: site, Cut: cut}
+	e.Threads = append(e.Threads, th)
+}
+
 func (e *Engine) spawn(st *State, f FuncV, site string) {
-	th := &Thread{ID: len(e.Threads), Fn: f, Site: site}
+	th := &Thread{ID: len(e.Threads), Fn: f, Site: site, Cut: -1}
 	e.Threads = append(e.Threads, th)
 }
 
 func (e *Engine) spawnAtomic(st *State, f FuncV, site string) {
-	th := &Thread{ID: len(e.Threads), Fn: f, Site: site, Atomic: true}
+	th := &Thread{ID: len(e.Threads), Fn: f, Site: site, Atomic: true, Cut: -1}
 	e.Threads = append(e.Threads, th)
 }
 
@@ -453,6 +459,17 @@ func (e *Engine) join(st *State, site string) {
 		for r := 0; r < R; r++ {
 			if th.Atomic {
 				th.Cs[r] = c.BV(uint64(n), csW)
+				continue
+			}
+			if th.Cut >= 0 {
+				if th.Cut > n {
+					panic(&PruneCase{})
+				}
+				if r == 0 {
+					th.Cs[r] = c.BV(uint64(th.Cut), csW)
+				} else {
+					th.Cs[r] = c.BV(uint64(n), csW)
+				}
 				continue
 			}
 			th.Cs[r] = c.Var(fmt.Sprintf("cs_t%d_r%d", th.ID, r), csW)
